@@ -183,6 +183,7 @@ type Scenario struct {
 	AlertGCInterval     time.Duration `json:"alert_gc_interval,omitempty"`
 	DispatchMaint       time.Duration `json:"dispatch_maint,omitempty"`
 	PerAlertNameLimit   int           `json:"per_alert_name_limit,omitempty"`
+	DispatchStartDelay  time.Duration `json:"dispatch_start_delay,omitempty"`
 }
 
 // Epoch is a period during which one configuration (and one dispatcher) was in force.
@@ -329,7 +330,7 @@ func Run(s *Scenario, dir string) *Result {
 	mkOpts := func(c *Config, keep bool) sim.Options {
 		return sim.Options{Yield: yield, Name: "am0", ConfigYAML: c.YAML(), Dir: dir, KeepData: keep, Log: res.Log, Script: script, Debug: DebugWriter,
 			Retention: s.Retention, MaintenanceInterval: s.MaintenanceInterval, AlertGCInterval: s.AlertGCInterval,
-			DispatchMaintenanceInterval: s.DispatchMaint, PerAlertNameLimit: s.PerAlertNameLimit}
+			DispatchMaintenanceInterval: s.DispatchMaint, PerAlertNameLimit: s.PerAlertNameLimit, DispatchStartDelay: s.DispatchStartDelay}
 	}
 	cur := s.Config
 	ep, err := newEpoch(cur, start)
